@@ -1,4 +1,37 @@
+(** C01 — a string is typed exactly as the configured templates say, else stays untyped.
+    Property theorems only.  [natural] / [forced] / [accepts] (Sid/TypingSpec.v) are the independent,
+    segment-wise statement; [sid_to_dict] (Sid/Sid.v) is the model of the code path
+    (whole-template regex with python's priority order and "$", canonical check, fallback over all templates). *)
 From Coq Require Import List String Ascii.
-From Spil Require Import Base.Str.
-Example C01_placeholder : True. Proof. exact I. Qed.
-Print Assumptions C01_placeholder.
+From Spil Require Import Base.Str Base.Dict Base.Outcome Regex.Re Regex.MatchProofs Resolva.Resolver
+  Conf.Conf Conf.WF Sid.Sid Sid.TypingSpec Sid.TypingProofs.
+From SpilGen Require Hamlet.
+Import ListNotations.
+Local Open Scope string_scope.
+
+(* natural typing: for every configuration that loads and is well-formed, every string of any length *)
+Theorem C01_natural : forall c Ld s, load c = Some Ld -> wf_loadedb Ld = true ->
+  sid_to_dict Ld s "" = Ok (natural Ld s).
+Proof. exact sid_to_dict_natural. Qed.
+Print Assumptions C01_natural.
+
+(* a 'type:' prefix forces that one template *)
+Theorem C01_forced : forall c Ld s ty, load c = Some Ld -> wf_loadedb Ld = true -> ty <> "" ->
+  sid_to_dict Ld s ty = Ok (forced Ld ty s).
+Proof. exact sid_to_dict_forced. Qed.
+Print Assumptions C01_forced.
+
+(* "the pattern accepts its whole segment" is language membership (declarative relation), not an artefact of the matcher *)
+Theorem C01_seg_ok_is_membership : forall r seg, seg_ok r seg = true <-> exists c, Matches r seg c.
+Proof. exact match_full_iff. Qed.
+Print Assumptions C01_seg_ok_is_membership.
+
+(* instance: today's configuration (regenerated from /repo on this run) loads and is well-formed, so the theorem applies to it *)
+Theorem C01_instance : forall s, sid_to_dict Hamlet.the_loaded s "" = Ok (natural Hamlet.the_loaded s).
+Proof. intro s. exact (sid_to_dict_natural Hamlet.the_conf Hamlet.the_loaded s Hamlet.the_loaded_eq Hamlet.conf_wf). Qed.
+Print Assumptions C01_instance.
+
+(* non-vacuity: a concrete non-trivial string is typed by the specification *)
+Example C01_example : exists d, natural Hamlet.the_loaded "hamlet/a/char" = Some ("asset__assettype", d).
+Proof. vm_compute. eexists. reflexivity. Qed.
+Print Assumptions C01_example.
